@@ -143,6 +143,8 @@ static double VF_lhsf_get(int i, int j) { return LF[i][j]; }
 #define ELOC_V 1
 #define ELOC_C 2
 static double VF_getLocVariable(int loc, int rank, int item) { return loc == ELOC_V ? __CPROVER_uninterpreted_verr(rank, item) : 0.; }
+double __CPROVER_uninterpreted_verrOut(int, int);
+static double VF_getLocVariableOut(int loc, int rank, int item) { return loc == ELOC_V ? __CPROVER_uninterpreted_verrOut(rank, item) : 0.; }
 static bool VF_getFlagContinuous(void) { return 0; }
 static double _continuousMultiplier(int r1, int r2) { return 0.; }
 static double VF_evalDriftValue(int rank, int ivar, int ib) { return __CPROVER_uninterpreted_drift(rank, ivar, ib); }
@@ -153,6 +155,9 @@ static bool FFFF(double v) { return v > 1.0e30 || v != v; }
            Fn("KrigingSystem::_addLHSF", KS, r"^void KrigingSystem::_addLHSF\(int iech, int ivar, int jech, int jvar, double value\)\s*$",
               csig="void _addLHSF(int iech, int ivar, int jech, int jvar, double value)", rewrites=[(r"_lhsf\.setValue\(indi, indj, _lhsf\.getValue\(indi, indj, false\) \+ value, false\);", "VF_lhsf_set(indi, indj, VF_lhsf_get(indi, indj) + value);", "opt"),
                                                                                                      (r"_lhsf\.(\w+)\(", r"VF_lhsf_\1(", "opt")]),
+           # helper a refactor may route the error variance through (real text; the target-side branch reads the output Db)
+           Fn("KrigingSystem::_getVerr", KS, r"^double KrigingSystem::_getVerr\(int rank, int ivar\) const\s*$", csig="double _getVerr(int rank, int ivar)",
+              rewrites=[(r"_dbin->getLocVariable\(ELoc::(\w),", r"VF_getLocVariable(ELOC_\1,", 1), (r"_dbout->getLocVariable\(ELoc::(\w),", r"VF_getLocVariableOut(ELOC_\1,", 1)]),
            Fn("KrigingSystem::_getLHSF", KS, r"^double KrigingSystem::_getLHSF\(int iech, int ivar, int jech, int jvar\) const\s*$",
               csig="double _getLHSF(int iech, int ivar, int jech, int jvar)", rewrites=[(r"_lhsf\.getValue\(indi, indj, false\)", "VF_lhsf_get(indi, indj)", 1)])]
     f = Fn("KrigingSystem::_lhsCalcul", KS, r"^void KrigingSystem::_lhsCalcul\(\)\s*$", csig="void KrigingSystem_lhsCalcul(void)",
@@ -163,7 +168,8 @@ static bool FFFF(double v) { return v > 1.0e30 || v != v; }
                      (r"_cova->evalCovKriging\(_covtab,_p1,_p2,NULL\);", "VF_evalCovKriging();", 1),
                      (r"_dbin->getLocVariable\(ELoc::(\w),", r"VF_getLocVariable(ELOC_\1,", None),
                      (r"_neigh->getFlagContinuous\(\)", "VF_getFlagContinuous()", 1),
-                     (r"_model->evalDriftValue\(_dbin, _nbgh\[iech\], ivar, ib, ECalcMember::LHS\)", "VF_evalDriftValue(_nbgh[iech], ivar, ib)", 1)])
+                     # the sample argument is kept as the code writes it: the contract pins it to the neighbourhood rank _nbgh[iech]
+                     (r"_model->evalDriftValue\(_dbin,\s*([^,()]+(?:\[[^\]]*\])?),\s*(\w+),\s*(\w+),\s*ECalcMember::LHS\)", r"VF_evalDriftValue(\1, \2, \3)", 1)])
     h = """
 void vf_harness(void)
 {
